@@ -112,7 +112,7 @@ class P(Prop):
             "cell sizes and margins, tracks of 1..7 observations (a third of the real stream: 1..2) on / near / far from the network, exactly on nodes and vertices, outside the index "
             "extent, several radii and noise values; SESSION stream: on one network / index object, 1..3 calls of mapOnNetwork, the first on a TrackCollection of 2..3 tracks of different "
             "lengths that are not co-located, later calls on collections, plain lists or bare tracks, tracks matched again (their obs_noise / hmm_inference / hmm_cost columns already "
-            "exist), user features with those names, radius and noise changing between calls, transition_cost / debug / verbose / positional arguments, for 30 % of the sessions the module "
+            "exist), user features with those names, radius and noise changing between calls, transition_cost / debug / verbose / positional arguments, search_radius or gps_noise left to their defaults (50), integral arguments passed as ints, for 30 % of the sessions the module "
             "was used before on another (one-edge) network; the oracle is applied to every "
             "track of every call through its own hmm_inference column and measures on Edge.geom as read back from the network after the call; the network state after construction "
             "(geometries with altitudes, abs_curv columns, edge weights (3D cases), node table with altitudes, edge ends, grid) and per track STATES (as sets, and in the real order), hmm_inference, feature names, obs_noise column and "
@@ -480,6 +480,14 @@ class P(Prop):
                 c["tc"] = rng.choice([5, 10])
             elif r < 0.50 and not c["bare"]:
                 c["form"] = "list"
+            elif r < 0.56:
+                c["defaults"] = "radius"              # search_radius left to its default (50, an int)
+                c["radius"] = 50.0
+            elif r < 0.60:
+                c["defaults"] = "noise"               # gps_noise left to its default (50)
+                c["noise"] = 50.0
+            elif r < 0.66:
+                c["ints"] = True                      # integral arguments passed as Python ints
         pre = {}
         for k in range(ntr):
             if rng.random() < 0.25:
@@ -534,7 +542,7 @@ class P(Prop):
                 "via": case.get("via", "direct") + ("+strids" if case.get("strids") else ""), "node_gap": gap, "shape": shape,
                 "warm": bool(case.get("warm")),
                 "args": "".join(sorted(set("".join(("t" if "tc" in c else "") + ("d" if c.get("debug") else "") + ("v" if c.get("verbose") else "") +
-                                                        ("p" if c.get("positional") else "") + ("l" if c.get("form") == "list" else "") for c in S["calls"])))),
+                                                        ("p" if c.get("positional") else "") + ("l" if c.get("form") == "list" else "") + ("D" if c.get("defaults") else "") + ("i" if c.get("ints") else "") for c in S["calls"])))),
                 "obs": sum(len(t) for t in S["tracks"]), "calls": len(S["calls"]),
                 "max_tracks_per_call": max(len(c["t"]) for c in S["calls"]), "rematch": rematch, "pre_features": bool(S.get("pre")),
                 "orient": "".join(sorted(orient)), "multi_vertex": any(len(e["g"]) > 2 for e in case["edges"])}
@@ -736,7 +744,12 @@ class P(Prop):
                     arg = list(objs)                      # `for track in tracks` accepts any iterable of tracks
                 else:
                     arg = self.tl["TC"](objs)
-                kw = dict(gps_noise=call["noise"], search_radius=call["radius"])
+                num = (lambda v: int(v) if call.get("ints") and float(v).is_integer() else v)
+                kw = dict(gps_noise=num(call["noise"]), search_radius=num(call["radius"]))
+                if call.get("defaults") == "radius" and call["radius"] == 50.0:
+                    del kw["search_radius"]
+                if call.get("defaults") == "noise" and call["noise"] == 50.0:
+                    del kw["gps_noise"]
                 if "tc" in call:
                     kw["transition_cost"] = call["tc"]
                 if call.get("verbose"):
